@@ -1841,7 +1841,14 @@ func judgeContract(o *engine.Outcome, w *world, d *spec.Design, design string, s
 					if e.Type != nil {
 						k = e.Type.Kind + ":" + e.Type.Name
 					}
-					kinds[k] = true
+					// (the same type with another response mapping - an attribute in a header here, in the body
+					// there - is another body layout as far as the document is concerned)
+					hk := make([]string, 0, len(e.Headers))
+					for a := range e.Headers {
+						hk = append(hk, a)
+					}
+					sort.Strings(hk)
+					kinds[k+"|"+strings.Join(hk, ",")] = true
 				}
 			}
 			if len(kinds) > 1 {
